@@ -69,6 +69,9 @@ func TypedDesc(name string, seed uint64, n int) *astits.Descriptor {
 			sa := &astits.DescriptorExtensionSupplementaryAudio{EditorialClassification: uint8(r.Intn(32)), HasLanguageCode: r.Bool(), MixType: r.Bool(), PrivateData: txt(4)}
 			if sa.HasLanguageCode {
 				sa.LanguageCode = lang(r)
+				if r.Chance(1, 3) {
+					sa.LanguageCode = sa.LanguageCode[:r.Intn(3)] // shorter than the 3 bytes on the wire
+				}
 			}
 			d.Extension = &astits.DescriptorExtension{Tag: astits.DescriptorTagExtensionSupplementaryAudio, SupplementaryAudio: sa}
 		} else {
